@@ -10,7 +10,7 @@ import (
 // aggregates unused. They only label cases for the evidence; no verdict depends on them.
 
 type timeRoles struct {
-	projection, comparison, isNull, coalesce                       bool
+	projection, comparison, isNull, coalesce                                 bool
 	groupKey, distinct, orderKey, joinKey, joinTheta, aggArg, aggDistinctArg bool
 }
 
@@ -165,10 +165,10 @@ func timeClasses(tables []gen.TableSpec, q gen.Q) []string {
 		"time_group_key": r.groupKey, "time_distinct": r.distinct, "time_order_key": r.orderKey, "time_join_key": r.joinKey,
 		"time_join_theta": r.joinTheta, "time_aggregate_argument": r.aggArg, "time_aggregate_distinct_argument": r.aggDistinctArg,
 		"time_same_instant_different_zone_in_data": d.sameInstantCol || d.sameInstantJoin,
-		"time_before_1970": d.beforeEpoch,
+		"time_before_1970":                         d.beforeEpoch,
 		// a Time value is a key (GROUP BY / DISTINCT / DISTINCT aggregate argument / ORDER BY / equi-join) and the data holds one
 		// instant under two spellings (inside one column; for a join key: in Time columns of two tables)
-		"time_key_same_instant_different_zone": r.key() && (d.sameInstantCol || (r.joinKey && d.sameInstantJoin)),
+		"time_key_same_instant_different_zone":      r.key() && (d.sameInstantCol || (r.joinKey && d.sameInstantJoin)),
 		"time_join_key_same_instant_different_zone": r.joinKey && d.sameInstantJoin,
 	} {
 		if on {
